@@ -55,13 +55,20 @@ type Beh struct {
 	Mask       uint8
 	Restart    bool
 	NegErr     bool
+	// Layer: a restarting Negotiate returns a new connection layer (a wrapper that is not the
+	// session's connection) instead of session.Conn()
+	Layer bool
 }
 
 func (b Beh) Name() string { return fmt.Sprintf("%d.%d", b.NS, b.Loc) }
 
 func (b Beh) Enc() string {
-	return fmt.Sprintf("%s:%d:%d:%s:%s:%s:%s:%d:%s:%s", b.Name(), b.Nec, b.Proh, common.B(b.Negotiable),
+	s := fmt.Sprintf("%s:%d:%d:%s:%s:%s:%s:%d:%s:%s", b.Name(), b.Nec, b.Proh, common.B(b.Negotiable),
 		common.B(b.ListReq), common.B(b.ListErr), common.B(b.ParseErr), b.Mask, common.B(b.Restart), common.B(b.NegErr))
+	if b.Layer {
+		s += ":1"
+	}
+	return s
 }
 
 func (b Beh) Eligible(st uint8) bool { return st&b.Nec == b.Nec && st&b.Proh == 0 }
@@ -139,6 +146,8 @@ type Case struct {
 	Cfg    []Beh
 	Script []Item
 	Fault  string // "-", "k", "k+", "Cn" (cancel the context once n events were observed)
+	// Tee: the StreamConfig carries TeeIn and TeeOut.
+	Tee bool
 	// Block: a read at the end of the script blocks until the connection's deadline passes
 	// (what a silent peer looks like on a transport with deadlines) instead of returning EOF.
 	Block bool
@@ -229,6 +238,9 @@ func (c Case) Line(r Result) string {
 	flags := common.B(c.WS)
 	if c.Block {
 		flags += "b"
+	}
+	if c.Tee {
+		flags += "t"
 	}
 	return fmt.Sprintf("run %d %s %s %s %s %s", c.St0, flags, EncCfg(c.Cfg), EncScript(r.Script), common.Join(r.Picks, ","), c.Fault)
 }
@@ -731,6 +743,9 @@ func (r *runState) features() []xmpp.StreamFeature {
 				var rw io.ReadWriter
 				if b.Restart {
 					rw = s.Conn()
+					if b.Layer {
+						rw = layerConn{s.Conn()}
+					}
 				}
 				if b.NegErr {
 					return xmpp.SessionState(b.Mask), rw, errCB
@@ -763,6 +778,9 @@ func Exec(cs Case) Result {
 			r.mu.Lock()
 			r.sess = s
 			r.mu.Unlock()
+		}
+		if cs.Tee {
+			return xmpp.StreamConfig{Features: feats, TeeIn: io.Discard, TeeOut: io.Discard}
 		}
 		return xmpp.StreamConfig{Features: feats}
 	}
@@ -854,10 +872,11 @@ func ParseLine(line string) (Case, error) {
 	cs.St0 = uint8(st)
 	cs.WS = strings.HasPrefix(f[2], "1")
 	cs.Block = strings.Contains(f[2], "b")
+	cs.Tee = strings.Contains(f[2], "t")
 	if f[3] != "-" {
 		for _, s := range strings.Split(f[3], ";") {
 			p := strings.Split(s, ":")
-			if len(p) != 10 {
+			if len(p) != 10 && len(p) != 11 {
 				return cs, fmt.Errorf("bad feature %q", s)
 			}
 			var b Beh
@@ -876,6 +895,7 @@ func ParseLine(line string) (Case, error) {
 			b.Mask = uint8(n)
 			b.Restart = p[8] == "1"
 			b.NegErr = p[9] == "1"
+			b.Layer = len(p) == 11 && p[10] == "1"
 			cs.Cfg = append(cs.Cfg, b)
 		}
 	}
@@ -932,3 +952,7 @@ func watchdog(cs Case, fs faultSpec) time.Duration {
 	}
 	return 10 * time.Second
 }
+
+// layerConn is a new connection layer on top of the session's connection (what STARTTLS
+// returns): a net.Conn that is not the session's own connection.
+type layerConn struct{ net.Conn }
